@@ -23,7 +23,8 @@ CFG = {
             "TxPool.add/validateTx/enqueueTx/promoteTx/removeTx/promoteExecutables/demoteUnexecutables/reset/SetGasPrice":
                 "corr (trace validation; eviction policy = inferred oracle, costcap/gascap compared as sound upper bounds)",
             "block walk of reset (discarded/included)": "corr (harness computes the two branches on its own block tree; the pool's walk must agree)",
-            "pool loop eviction tick, journal, txFeed, priced heap order": "not modelled (eviction tick exercised in the concurrent tier only)"},
+            "txPricedList Put/Removed/Underpriced/Discard/Cap": "corr (heap array and stale counter dumped by the accessor; victims of add and SetGasPrice predicted from the dumped heap by the concrete machine; post heap compared as multiset + stale counter + heap property)",
+            "pool loop eviction tick, journal, txFeed": "not modelled (eviction tick exercised in the concurrent tier only)"},
     "assumptions": ["sequential semantics under pool.mu: data races are not expressible in the model; the concurrent tier runs the real pool "
                     "from several goroutines (race detector in the thorough tier) and judges snapshots by the state clauses",
                     "the transaction hash is injective on (sender, nonce, price, gas, value) for well-formed transfers (deterministic signing)",
@@ -40,11 +41,11 @@ META = {
                  "tied to core/tx_pool.go and core/tx_list.go by trace validation of the real pool",
     "text": "Theorems inv_init / inv_step / inv_reachable (pending lists are gap-free affordable runs from the chain nonce, one transaction per "
             "sender and nonce) hold for all operation sequences and all eviction choices in the Lean model of the pool as written at "
-            "HEAD; limits_after_reset, replacement_needs_bump, all_ok_step, reorg_reinjects_partial cover limits, price bump and reorg "
-            "re-injection. The two defects found by this check and since fixed in /repo (f30bc16, c2af732) stay documented as decided "
+            "HEAD; limits_after_reset, replacement_needs_bump, all_ok_step, reorg_reinjects (every sender, with the explicit full-and-underpriced "
+            "exception) cover limits, price bump and reorg re-injection; priced_consistent / priced_*_refines show that the price heap refines the "
+            "eviction oracle. The two defects found by this check and since fixed in /repo (f30bc16, c2af732) stay documented as decided "
             "witnesses on the pre-fix model variants (prefix_removeTx_witness, pre_c2af732_reset_gap_witness). Every run replays >10k real pool transitions through the model and "
             "evaluates the clauses on every observed state.",
-    "note": GEN + " The reorg re-injection clause is proved end to end for local senders (reorg_reinjects_partial) and at the bookkeeping "
-                  "level for all (all = pending ∪ queue for every operation; the pre-fix defect as a decided witness); for non-local "
-                  "senders the end-to-end statement is judged on the real code per history.",
+    "note": GEN + " The heap property of the container/heap array algorithms is not proved: the model uses them through run-time checked "
+                  "wrappers with a correct fallback, and the driver reports any fallback or any dumped array that is not a heap.",
 }
